@@ -582,6 +582,25 @@ func TestC16Binary(t *testing.T) {
 		if arity == 0 && rapid.Bool().Draw(rt, "omitParams") {
 			params = ""
 		}
+		// sometimes a frame that is not a JSON-RPC message precedes the probe on the same WebSocket connection (it
+		// names a method and parameters but has a member of the wrong type). The pool may hang up on it - then the probe
+		// goes over a new connection - but if it keeps the connection, the probe must be judged on its own content
+		// only. Half of these probes are the sharpest follow-up: the same method, without a "params" member.
+		garbage := ""
+		if transport == "ws" && rapid.IntRange(0, 3).Draw(rt, "garbageFirst") == 0 {
+			g := rapid.SampledFrom([][2]string{
+				{`{"jsonrpc":2,"method":"pool_account","params":["0x52908400098527886e0f7030069857d2e4169ee7"]}`, "pool_account"},
+				{`{"jsonrpc":2,"id":7,"method":"vipnode_ping","params":[1,2,3]}`, "vipnode_ping"},
+				{`{"jsonrpc":"2.0","id":7,"method":"pool_status","params":[],"error":"x"}`, "pool_status"},
+				{`{"jsonrpc":"2.0","method":"pool_account","params":["0x52908400098527886e0f7030069857d2e4169ee7"],"error":7}`, "pool_account"},
+				{`{"method":5,"params":["a","b",3,{}]}`, "vipnode_connect"},
+			}).Draw(rt, "garbageFrame")
+			garbage = g[0]
+			if rapid.Bool().Draw(rt, "sameMethodWithoutParams") {
+				name, kinds, documented = g[1], poolEndpoints[g[1]], true
+				arity, vals, jkinds, params = 0, nil, nil, ""
+			}
+		}
 		nameJSON, _ := json.Marshal(name)
 		body := fmt.Sprintf(`{"jsonrpc":"2.0","id":%d,"method":%s%s}`, idn, nameJSON, params)
 		var replyText string
@@ -592,7 +611,20 @@ func TestC16Binary(t *testing.T) {
 			}
 			replyText = b
 		} else {
+			if garbage != "" {
+				ws.WriteMessage(websocket.TextMessage, []byte(garbage))
+			}
 			b, err := wsCall(body)
+			if err != nil {
+				// the pool hung up (on the frame above, or for a reason of its own): a fresh connection must work
+				ws.Close()
+				ws2, _, derr := websocket.DefaultDialer.Dial("ws://"+p.addr+"/", nil)
+				if derr != nil {
+					rt.Fatalf("[setup failed] dial: %v", derr)
+				}
+				ws = ws2
+				b, err = wsCall(body)
+			}
 			if err != nil {
 				rt.Fatalf("WebSocket probe %s failed: %v\npool log:\n%s", body, err, tailLines(p.log(), 20))
 			}
